@@ -4,11 +4,12 @@ tier=${1:-thorough}; shift
 ids=${@:-C01 C02 C03 C04 C05 C06 C07 C08 C09 C10 C11 C12 C13 C14 C15 C16 C17 C18 C19 C20}
 cd "$(dirname "$0")/.."
 export VERIF_DIR=$PWD
-[ -n "${VP_RUN_REPO:-}" ] && export VERIF_REPO=$VP_RUN_REPO
+repoflag=""
+[ -n "${VP_RUN_REPO:-}" ] && repoflag="--repo $VP_RUN_REPO"
 mkdir -p sweep_logs
 for id in $ids; do
   s=$(date +%s)
-  ./check $id --tier $tier > sweep_logs/$id.$tier.log 2>&1
+  ./check $id --tier $tier $repoflag > sweep_logs/$id.$tier.log 2>&1
   rc=$?
   e=$(date +%s)
   echo "$id tier=$tier rc=$rc wall=$((e-s))s kf=$(grep -c '^KNOWN-FINDING' sweep_logs/$id.$tier.log) :: $(grep '^OK\|^VIOLATION\|^INCONCLUSIVE\|^ENGINE\|^ERROR' sweep_logs/$id.$tier.log | head -4 | cut -c1-220 | tr '\n' ' ')"
